@@ -349,6 +349,11 @@ def replay(cex, native):
         if k == 'v2_ref':
             for (e, inp), line in zip(runs, lines):
                 want = py_v2x(inp) if e == 'v2x' else py_tlvx(inp)
+                # the payload of a Leftovers item is not specified by the property: compare modulo that number
+                line, want = re.sub(r'\bL\d+', 'L', line), re.sub(r'\bL\d+', 'L', want)
+                if len(inp) > 65535:
+                    # TypeLengthValues::len() of a stand-alone section longer than a u16 is not specified either
+                    line, want = re.sub(r'tlvslen=\d+', 'tlvslen=_', line), re.sub(r'tlvslen=\d+', 'tlvslen=_', want)
                 if line != want:
                     ta, tb = line.split(' '), want.split(' ')
                     diff = [(x, y) for x, y in zip(ta, tb) if x != y][:4]
@@ -594,9 +599,82 @@ def tlv_state(prog, sec, offset):
     return st
 
 
+def ob_tlv_walk(prog, steps=3):
+    """representation-independent fallback of the step obligation (used when TypeLengthValues is no longer
+    {bytes, offset}): the iterator is built by the crate's own `From<&[u8]>` over S[0, L) (any length) and `next()`
+    is called `steps` + 1 times; every call must return what the reference walk returns at that point."""
+    ctx = V2Input(suffix='_w')
+    nxt = trait_impl(prog, r'^Iterator$', r'^TypeLengthValues', 'next')
+    frm = trait_impl(prog, r'^From<&\[u8\]>$', r'^TypeLengthValues', 'from')
+    ex = new_exec(prog)
+
+    def run(e):
+        ctx.buf.attach(e)
+        it = e.call_fn(frm, [ctx.slice()], {})
+        cell = Cell(it)
+        outs = []
+        for _ in range(steps + 1):
+            outs.append(e.call_fn(nxt, [Ref(cell)], {}))
+        e.notes.append(('walk', outs))
+        return outs[-1]
+    res = explore(ex, run, base_axioms=ctx.axioms, max_paths=4000)
+    recs = []
+    S, L = ctx.S, ctx.L
+    for i, (sc, items, out, notes) in enumerate(res):
+        pc = [c for _, c in items]
+
+        def mk(m, summary='TLV iteration deviates from the standard walk'):
+            data = model_input(m, ctx)
+            if data is None:
+                return None
+            return {'v2': True, 'runs': [['tlvx', data.hex()]], 'violated_if': 'v2_ref', 'summary': '%s on a section of %d bytes' % (summary, len(data))}
+        if out[0] == 'panic':
+            recs += rec_fix(solve(ctx, pc, z3.BoolVal(True), 'tlv_walk#%d:panic' % i, lambda m: mk(m, 'TLV iteration panics (%s)' % out[1])), 'tlv_step', 'tlv', i)
+            continue
+        outs = [n for n in notes if n[0] == 'walk'][0][1]
+        o = 0           # reference cursor (symbolic), None once the walk has ended
+        ended = False
+        cs = []
+        for r in outs:
+            if ended:
+                cs.append(r.variant == 'None')
+                continue
+            rem = L - o
+            t, ln = S(Z(o)), S(Z(o) + 1) * 256 + S(Z(o) + 2)
+            if r.variant == 'None':
+                cs.append(Z(o) >= L)
+                ended = True
+                continue
+            it = r.fields[0]
+            if it.variant == 'Err':
+                e_ = it.fields[0]
+                if e_.variant == 'Leftovers' and len(e_.fields) == 1:
+                    cs.append(and_(Z(o) < L, rem < 3))      # the payload of Leftovers is not specified by C11
+                elif e_.variant == 'InvalidTLV' and len(e_.fields) == 2:
+                    cs.append(and_(Z(o) < L, rem >= 3, rem < 3 + ln, eq(e_.fields[0], t), eq(e_.fields[1], ln)))
+                else:
+                    cs.append(False)
+                ended = True
+                continue
+            tv = it.fields[0]
+            val = tv.get('value')
+            vs = val.fields[0] if isinstance(val, Enum) and val.variant == 'Borrowed' else None
+            if not (isinstance(vs, Str) and vs.buf is ctx.buf):
+                cs.append(False)
+                break
+            cs.append(and_(Z(o) < L, rem >= 3, rem >= 3 + ln, eq(tv.get('kind'), t), eq(vs.start, o + 3), eq(vs.end, o + 3 + ln)))
+            o = o + 3 + ln
+        neg = not_(and_(*cs))
+        neg = z3.BoolVal(neg) if isinstance(neg, bool) else neg
+        recs += rec_fix(solve(ctx, pc, neg, 'tlv_walk#%d' % i, mk), 'tlv_step', 'tlv', i)
+    return recs, len(res)
+
+
 def ob_tlv_step(prog):
     """`next()` from an arbitrary valid state (section = S[0, L) of any length, cursor o with 0 <= o <= L and
     (o = 0 or o >= 3 or o = L): the states reachable by the walk) equals one step of the reference walk."""
+    if sorted(struct_order(prog, 'src/v2/model.rs', 'TypeLengthValues')) != ['bytes', 'offset']:
+        return ob_tlv_walk(prog)
     ctx = V2Input(suffix='_t')
     nxt = trait_impl(prog, r'^Iterator$', r'^TypeLengthValues', 'next')
     O = z3.Int('tlv_o')
@@ -660,7 +738,7 @@ def ob_tlv_step(prog):
             if it.variant == 'Err':
                 e_ = it.fields[0]
                 if e_.variant == 'Leftovers' and len(e_.fields) == 1:
-                    good = and_(c_left, eq(e_.fields[0], L), eq(o2, L))
+                    good = and_(c_left, eq(o2, L))       # the payload of Leftovers is not specified by C11
                 elif e_.variant == 'InvalidTLV' and len(e_.fields) == 2:
                     good = and_(c_over, eq(e_.fields[0], t), eq(e_.fields[1], ln), eq(o2, L))
                 else:
